@@ -35,8 +35,38 @@ def generate(g, tier):
         for n in (19999, 20000):
             cases.append(dict(op='compile', timeout=120, src=dict(text=f'VAR s 0\nREPEAT i,{n}\n    VAR s s+1\n$STRING s'),
                               meta=dict(family='big', exp=['ok', [f'STRING {n}'], [], {'s': n}])))
+    # long loops (hundreds to thousands of iterations): every iteration really runs, in order, whatever state the body keeps —
+    # a user variable, the $DEFAULT_DELAY system variable, the counter — with and without a counter, for every loop keyword
+    for n in ([256, 300, 1000] if tier == 'quick' else [255, 256, 257, 300, 1000, 4096, 20000]):
+        for kw in ('REPEAT', 'FOR'):
+            cases.append(dict(op='compile', timeout=120, src=dict(text=f'{kw} {n}\n    DEFAULT_DELAY $DEFAULT_DELAY+1'),
+                              meta=dict(family='long-loop', expout=[f'DEFAULT_DELAY {k}' for k in range(1, n + 1)])))
+            cases.append(dict(op='compile', timeout=120, src=dict(text=f'VAR s 0\n{kw} {n}\n    VAR s s+2\n$STRING s'), meta=dict(family='long-loop', expout=[f'STRING {2 * n}'])))
+            cases.append(dict(op='compile', timeout=120, src=dict(text=f'{kw} i,{n}\n    IF i%100==99\n        $STRING i'), meta=dict(family='long-loop', expout=[f'STRING {k}' for k in range(n) if k % 100 == 99])))
+            cases.append(dict(op='compile', timeout=120, src=dict(text=f'VAR s 0\n{kw} {n}\n    IF s%2==0\n        STRING even\n    ELSE\n        STRING odd\n    VAR s s+1'),
+                              meta=dict(family='long-loop', expout=['STRING even', 'STRING odd'] * (n // 2) + (['STRING even'] if n % 2 else []))))
+        cases.append(dict(op='compile', timeout=120, src=dict(text=f'VAR s 0\nWHILE s<{n}\n    VAR s s+1\n$STRING s'), meta=dict(family='long-loop', expout=[f'STRING {n}'])))
+    # every pass of a loop body starts afresh at the body's OWN level: what the previous pass created there is gone, and a chain
+    # begun in the previous pass is not continued (a body that opens with ELIF)
+    for head, cvar in (('WHILE i,i<3', 'i'), ('REPEAT i,3', 'i'), ('FOR i,3', 'i')):
+        t = f'{head}\n    NOT_EXIST seen\n    VAR seen {cvar}\n    $STRING seen'
+        cases.append(dict(op='compile', src=dict(text=t), meta=dict(family='fresh-pass', expout=['STRING 0', 'STRING 1', 'STRING 2'])))
+        t = f'{head}\n    ELIF {cvar} == 1\n        BREAKLOOP\n    $STRING {cvar}\n    IF {cvar} == 0\n        STRING zero'
+        cases.append(dict(op='compile', src=dict(text=t), meta=dict(family='fresh-pass', expout=['STRING 0', 'STRING zero'])))
+        t = f'{head}\n    ELSE\n        STRING else-{cvar}\n    IF TRUE\n        PASS'
+        cases.append(dict(op='compile', src=dict(text=t), meta=dict(family='fresh-pass', expout=[f'STRING else-{cvar}'] * 3)))
     return cases
 
 
 def oracle(cases, results):
+    extra = []
+    for i, (c, r) in enumerate(zip(cases, results)):
+        m = c.get('meta', {})
+        if 'expout' in m and r.get('kind') != 'hang':
+            if r.get('kind') != 'ok': extra.append(fail(i, f'{m["family"]}: rejected: {r.get("cls", r.get("exc"))} {r.get("msg", "")}', f'{m["family"]}:rejected:{r.get("cls", r.get("exc"))}'))
+            elif r['out'] != m['expout']: extra.append(fail(i, f'{m["family"]}: {len(r["out"])} lines {r["out"][:4]}…{r["out"][-3:]}, expected {len(m["expout"])} lines {m["expout"][:4]}…{m["expout"][-3:]}', f'{m["family"]}:output'))
+    return extra + _oracle(cases, results)
+
+
+def _oracle(cases, results):
     return ast_oracle(cases, results, ('out', 'vars'), 'loops')
